@@ -149,6 +149,32 @@ def filterHg (ops : KeyOps κ) (c : Content κ ω) (nodeCrit edgeCrit : Option C
     (keepEdges : Bool) : Content κ ω :=
   edgePhase (nodePhase ops c nodeCrit mode keepEdges) edgeCrit mode
 
+/-! #### the same calls with their rejections: `remove_node` raises on an absent node, `remove_edge` on an absent
+key (`none` = an exception escapes `filter_hypergraph`) -/
+
+def removeEdge? (c : Content κ ω) (k : κ) : Option (Content κ ω) :=
+  if (AL.get? c.edges k).isSome then some (removeEdge c k) else none
+
+/-- the inner `remove_edge`/`add_edge` calls of `remove_node` act on keys read from the adjacency lists -/
+def removeNode? (ops : KeyOps κ) (keepEdges : Bool) (c : Content κ ω) (n : Node) : Option (Content κ ω) :=
+  if (AL.get? c.nodes n).isSome then some (removeNode ops keepEdges c n) else none
+
+def nodePhase? (ops : KeyOps κ) (c : Content κ ω) (crit : Option Crit) (mode : Mode) (keepEdges : Bool) :
+    Option (Content κ ω) :=
+  match crit with
+  | none => some c
+  | some cr => (nodesToProcess c cr mode).foldlM (removeNode? ops keepEdges) c
+
+def edgePhase? (c : Content κ ω) (crit : Option Crit) (mode : Mode) : Option (Content κ ω) :=
+  match crit with
+  | none => some c
+  | some cr => (edgesToProcess c cr mode).foldlM removeEdge? c
+
+/-- `filter_hypergraph` with its exceptions -/
+def filterHg? (ops : KeyOps κ) (c : Content κ ω) (nodeCrit edgeCrit : Option Crit) (mode : Mode)
+    (keepEdges : Bool) : Option (Content κ ω) :=
+  (nodePhase? ops c nodeCrit mode keepEdges).bind (fun c1 => edgePhase? c1 edgeCrit mode)
+
 /-! #### vocabulary of the specification -/
 
 /-- the criteria put an item with metadata `md` on the removal list (`none` criteria: never) -/
